@@ -30,6 +30,7 @@ def check(rep, tier, seed):
     model = C.build_model()
     wd = C.workdir("C19")
     bad = []
+    bad_inventory = []
     # (1) the compiler's verdict on safe-only witness programs
     verdicts = {}
     ok, errs, out = cargo_check("w_control_ok")
@@ -53,6 +54,23 @@ def check(rep, tier, seed):
             rep.known(F15)
         else:
             bad.append(("witness/src/bin/w_dangling_ref.rs", "compiles", F15))
+    # (1b) a client implementing the public BinaryInput trait with short / long reads: no provided method may build
+    # a value out of more bytes than the client handed over
+    p = C.run(["cargo", "run", "--offline", "--release", "--quiet", "--bin", "w_adversarial_io"], cwd=WITNESS, timeout=1200,
+              check=False, env={"CARGO_TARGET_DIR": os.path.join(C.CACHE, "target-w")})
+    probes = [l.split(" ") for l in p.stdout.splitlines() if l.startswith("read_")]
+    if p.returncode != 0 or len(probes) < 100:
+        raise C.Undecided("w_adversarial_io did not run: " + p.stdout[-1500:])
+    for name, asked, given, res in probes:
+        if asked != given and res != "err":
+            bad.append((f"witness/src/bin/w_adversarial_io.rs: {name} on a client input whose read_bytes({asked}) returns "
+                        f"{given} bytes", res, "a value was built from more bytes than the client's BinaryInput handed over "
+                        "(memory outside the given buffer was read)"))
+    verdicts["w_adversarial_io"] = f"{len(probes)} probes run"
+    # (1c) inventory of `unsafe` in the library: the streams below and the model's C19 theorems cover exactly these sites
+    inv, unknown = unsafe_inventory()
+    for site in unknown:
+        bad_inventory.append(site)
     # (2) the decoding paths implemented with unsafe code: arrays, byte vectors - every count / length mismatch
     cases = []
     for e in ("u8", "u32", "str", "i128"):
@@ -111,10 +129,52 @@ def check(rep, tier, seed):
         "samples": list(verdicts.items())[:3] + lines[:3], "programs": len(verdicts), "compiler_verdicts": verdicts, "miri": miri,
         "disagreements_checked": 2 * len(decs), "disagreements": len(dis),
     })
+    rep.coverage["unsafe_sites_in_library"] = inv
     if bad:
         l, a, why = bad[0]
         rep.violation(f"{why}: {l[:200]}", {"kind": "case", "case": l, "implementation": a, "why": why, "n_failing": len(bad)})
-    C.report_broken(rep, ob, dis, "codec/unsafe-paths", bool(bad))
+    elif bad_inventory:
+        rep.violation("the library contains an `unsafe` site that neither the model nor the decoding streams cover: "
+                      + "; ".join(bad_inventory),
+                      {"kind": "correspondence", "stream": "unsafe inventory (gen/props/c19.py: COVERED_UNSAFE)",
+                       "uncovered_sites": bad_inventory, "covered": COVERED_UNSAFE}, no_input=True)
+    C.report_broken(rep, ob, dis, "codec/unsafe-paths", bool(bad) or bool(bad_inventory))
+
+
+# (file, enclosing fn, what) of every `unsafe` in the library sources that this check exercises
+COVERED_UNSAFE = [
+    ["desert_core/src/state.rs", "get_ref_by_id", "ptr.as_ref()"],
+    ["desert_core/src/deserializer/mod.rs", "deserialize", "transmute_copy::<[u8; L], [T; L]>"],
+    ["desert_core/src/deserializer/mod.rs", "deserialize", "transmute(bytes.to_vec())"],
+]
+
+
+def unsafe_inventory():
+    """every `unsafe` token in the library crates (comments and the macro's expression printer aside) as
+    (file, enclosing fn, line text); returns (inventory, sites not in COVERED_UNSAFE)"""
+    import re
+    inv, unknown = [], []
+    for crate in ("desert_core/src", "desert_macro/src", "desert/src"):
+        root = os.path.join(C.REPO, crate)
+        for dp, _, fs in os.walk(root):
+            for fn in sorted(fs):
+                if not fn.endswith(".rs"):
+                    continue
+                path = os.path.join(dp, fn)
+                rel = os.path.relpath(path, C.REPO)
+                lines = open(path, encoding="utf-8").read().splitlines()
+                cur_fn = "-"
+                for i, l in enumerate(lines):
+                    m = re.search(r"\bfn\s+([A-Za-z0-9_]+)", l)
+                    if m:
+                        cur_fn = m.group(1)
+                    code = l.split("//")[0]
+                    if re.search(r"\bunsafe\b", code) and "Expr::Unsafe" not in code:
+                        text = " ".join(code.split())
+                        inv.append([rel, cur_fn, text])
+                        if not any(rel == f and cur_fn == g and w in text for f, g, w in COVERED_UNSAFE):
+                            unknown.append(f"{rel}:{i + 1} in fn {cur_fn}: {text[:120]}")
+    return inv, unknown
 
 
 def _vu(v):
